@@ -32,11 +32,19 @@ Theorem C06_one_result_per_request : forall e c ch v dur sender a r s,
 Proof. exact set_value_thm. Qed.
 Print Assumptions C06_one_result_per_request.
 
-(* Transport: an iterate moves calls queue -> out buffer -> wire without loss, invention or reordering and does not touch
-   the outputs; when the device is idle (queue and buffer empty) the wire has carried exactly the accepted calls. *)
-Theorem C06_fifo : forall s, accepted (iterate6 s) = accepted s /\ gout (iterate6 s) = gout s.
+(* Transport: an iterate moves calls queue -> out buffer (-> devconn's send buffer while espconn_sent answers INPROGRESS /
+   MAXNUM; such frames stay in `obuf` with 0 bytes left) -> wire without invention or reordering, and without loss unless
+   the send buffer itself loses bytes (overflow of its 500 bytes or a hard error of espconn_sent: ghost output OLost); it
+   does not touch the outputs; the same holds for the retry of the send buffer at the start of supla_esp_devconn_iterate.
+   When the device is idle (queue and buffer empty) the wire has carried exactly the accepted calls. *)
+Theorem C06_fifo : forall s,
+  (forall add, outs (iterate6 s) = add ++ outs s -> lost add = []) ->
+  accepted (iterate6 s) = accepted s /\ gout (iterate6 s) = gout s.
 Proof. exact fifo_thm. Qed.
 Print Assumptions C06_fifo.
+Theorem C06_transport_pieces : forall s, tp s (iterate6 s) /\ tp s (dev_iterate s).
+Proof. intros s. split; [apply iterate6_tp|apply dev_iterate_tp]. Qed.
+Print Assumptions C06_transport_pieces.
 Theorem C06_idle_all_delivered : forall s, queue s = [] -> obuf s = [] -> wired (outs s) = accepted s.
 Proof. exact idle_thm. Qed.
 Print Assumptions C06_idle_all_delivered.
@@ -77,14 +85,15 @@ Print Assumptions C06_plain_channel_answered.
 (* The last reported value equals the real state whenever the device is idle — as an invariant of whole histories:
    on every board with pairwise different gpios and channels (wf6), for every list of events after registration
    (iterates, set-value and group set-value requests with any value and duration, button / motion / sensor callbacks,
-   timer expiries, staircase changes; both variants of countdown()), under H_queue_room (no call was refused anywhere in
-   the trace, i.e. outside the two known-finding classes): whenever the out-queue and the out buffer are empty, the last
+   timer expiries, staircase changes, channel-config messages, a TCP layer that refuses writes; both variants of
+   countdown()), under H_queue_room (no call was refused anywhere in the trace, i.e. outside the two known-finding
+   classes) and H_link_room (nothing lost in devconn's send buffer): whenever the out-queue and the out buffer are empty, the last
    VALUE_CHANGED on the wire for each relay channel is the logical level of its pin (pin xor active-low); a relay whose
    channel was never reported since registration still has the level it had at registration. *)
 Theorem C06_last_report_equals_state_except_known : forall e c, wf6 c -> forall evs,
   (forall x, In x evs -> x <> CReg) ->
   let s := run_reg e c evs in
-  new_drops (outs s) = [] -> queue s = [] -> obuf s = [] ->
+  new_drops (outs s) = [] -> lost (outs s) = [] -> queue s = [] -> obuf s = [] ->
   forall r, In r (c_relays (c6 c)) ->
     match lastval (wired (outs s)) (r_chan r) with
     | Some v => v = b2z (level r s)
@@ -98,13 +107,14 @@ Print Assumptions C06_last_report_equals_state_except_known.
 Theorem C06_reports_follow_outputs : forall e c, wf6 c -> forall evs,
   (forall x, In x evs -> x <> CReg) ->
   let s := run_reg e c evs in
-  new_drops (outs s) = [] ->
+  new_drops (outs s) = [] -> lost (outs s) = [] ->
   SlotRel (c6 c) s /\ reg s = true /\ rep c (sreg6 e c) s.
 Proof. exact last_report_thm. Qed.
 Print Assumptions C06_reports_follow_outputs.
 
 Example C06_history_hypotheses_satisfiable :
   wf6 cd_board /\ (forall x, In x plain_evs -> x <> CReg) /\ new_drops (outs (run_reg false cd_board plain_evs)) = [] /\
+  lost (outs (run_reg false cd_board plain_evs)) = [] /\
   queue (run_reg false cd_board plain_evs) = [] /\ obuf (run_reg false cd_board plain_evs) = [] /\
   lastval (wired (outs (run_reg false cd_board plain_evs))) 1 = Some 0.
 Proof. exact (conj wf6_cd_board plain_history_ok). Qed.
